@@ -72,8 +72,15 @@ fn op_version_header(case: &Value) -> Value {
 #[dropshot::endpoint { method = GET, path = "/placeholder-which" }]
 async fn which_handler(
     rqctx: dropshot::RequestContext<()>,
-) -> Result<dropshot::HttpResponseOk<String>, dropshot::HttpError> {
-    Ok(dropshot::HttpResponseOk(rqctx.endpoint.operation_id.clone()))
+) -> Result<hyper::Response<dropshot::Body>, dropshot::HttpError> {
+    // the operation id travels in a header as well: a HEAD response has no body
+    let id = rqctx.endpoint.operation_id.clone();
+    Ok(hyper::Response::builder()
+        .status(200)
+        .header("x-handler", id.clone())
+        .header("content-type", "application/json")
+        .body(dropshot::Body::from(serde_json::to_string(&id).unwrap()))
+        .unwrap())
 }
 
 /// A real server with the header version policy: which handler (by operation id) serves each request.
@@ -123,7 +130,7 @@ fn op_versioned_server(case: &Value) -> Value {
         .map(|r| match r {
             None => json!({"status": null}),
             Some(r) => {
-                let handler = if r.status == 200 { serde_json::from_slice::<String>(&r.body).ok() } else { None };
+                let handler = if r.status == 200 { r.header_all("x-handler").into_iter().next() } else { None };
                 json!({"status": r.status, "handler": handler})
             }
         })
